@@ -33,6 +33,19 @@ def mods():
     return _mods
 
 
+def bind_time(t, primary=None):
+    """Bind the name `time` in every module of adb_shell that has it (the two device modules always; any other module in which a
+    change starts to look at the clock, e.g. the helpers) to t: the virtual clock of a session, or the real time module."""
+    import time as _real
+    if primary is not None:
+        primary.time = t
+    for name, mod in list(sys.modules.items()):
+        if name.startswith('adb_shell') and mod is not None:
+            cur = getattr(mod, 'time', None)
+            if cur is _real or isinstance(cur, VClock):
+                mod.time = t
+
+
 from .simdev import SimDevice, Recorder, VClock  # noqa: E402
 from . import transports  # noqa: E402
 
@@ -77,6 +90,9 @@ class LockLeak(Exception):
     """A lock was requested while still held by an earlier call of this single-threaded session: it was leaked."""
 
 
+LOCK_LEAKS = []       # every LockLeak raised (some are raised where nobody can see the exception, e.g. inside the finalisation of a generator)
+
+
 def _detector_locks():
     class DLock(object):
         def __init__(self):
@@ -84,6 +100,8 @@ def _detector_locks():
 
         def acquire(self, *a, **k):
             if self._held:
+                import traceback
+                LOCK_LEAKS.append(''.join(traceback.format_stack(limit=6))[-600:])
                 raise LockLeak('lock acquired while still held (leaked by an earlier call)')
             self._held = True
             return True
@@ -132,14 +150,14 @@ class Session(object):
         if mode == 'sync':
             self.module = m['sync']
             self.module.Lock = DL          # single-threaded sessions: a leaked lock raises instead of blocking forever
-            self.module.time = self.clock
+            bind_time(self.clock, self.module)
             self.transport = MemT(self.core, gate) if net == 'mem' else _vtcp(mode, self.core)
             self.device = self.module.AdbDevice(self.transport, default_transport_timeout_s=default_transport_timeout_s, banner=banner)
             self.loop = None
         else:
             self.module = m['asyn']
             self.module.Lock = ADL
-            self.module.time = self.clock
+            bind_time(self.clock, self.module)
             self.transport = MemTA(self.core, gate) if net == 'mem' else _vtcp(mode, self.core)
             self.device = self.module.AdbDeviceAsync(self.transport, default_transport_timeout_s=default_transport_timeout_s, banner=banner)
             self.loop = asyncio.new_event_loop()
@@ -154,7 +172,7 @@ class Session(object):
             self.loop = None
 
     def rebind_clock(self):
-        self.module.time = self.clock
+        bind_time(self.clock, self.module)
 
     def raw(self, api, *a, **kw):
         """Run the API to completion and return its value (generators are drained into lists)."""
